@@ -3,7 +3,7 @@
 (* TLC walks every rule sequence of the bounded alphabet of MC_DayEval (PatternsConst: no  *)
 (* day selector / Mondays / Tuesdays; whole day, morning, evening-wrapping spans; three    *)
 (* kinds; three operators) and emits, printed with Display.tla, every sequence that is      *)
-(* "constant-shaped": some rule is `24/7 <kind>` and all later rules cover whole days.      *)
+(* "constant-shaped": some rule is `24/7 <kind>`, or all rules have the same kind.           *)
 (* These are the sequences on which is_constant can answer TRUE after a small change of    *)
 (* its clauses. The harness streams each of them through the real iterator, state and      *)
 (* next_change; Trace_Iter compares with the library's own daily schedules (C02, C03).     *)
@@ -11,8 +11,11 @@ EXTENDS MC_DayEval, Json
 
 D == INSTANCE Display
 
-Shaped == \E i \in DOMAIN rs : /\ RuleConstant(rs[i])
-                               /\ \A j \in (i + 1)..Len(rs) : Is0024(rs[j])
+\* every sequence in which some rule is `24/7 <kind>`, and every sequence whose rules all have the same kind: the sequences on
+\* which a variation of any clause of is_constant (which rules are skipped from the end, what may precede a fallback) can
+\* change its answer
+Shaped == \/ \E i \in DOMAIN rs : RuleConstant(rs[i])
+          \/ \A i \in DOMAIN rs : rs[i].kind = rs[1].kind
 Emit == (Len(rs) >= 2 /\ Shaped) =>
            PrintT(<<"REPLAY", ToJson([src |-> D!DisplayExpr(Expr), constant |-> IsConstant(Expr),
                                       sound |-> (IsConstant(Expr) => ConstantDay(Expr, DayTiling(Expr, Today, NoCtx)))])>>)
